@@ -415,7 +415,8 @@ def driver(seed, count):
             n = rng.randint(1, 4) if small else rng.choice([5, 12, 30, rng.randint(1, 30)])
             ds = dates_inc(rng, n, yearly=small and rng.random() < 0.7)
             shape = row if rng.random() < 0.2 and n <= 20 else col
-            args = [N(rate), shape([N(c) for c in flows_any(rng, n, not small)]), shape(spell_dates(rng, ds))]
+            shape2 = (col if shape is row else row) if rng.random() < 0.15 and n <= 20 else shape     # flows in a row, dates in a column
+            args = [N(rate), shape([N(c) for c in flows_any(rng, n, not small)]), shape2(spell_dates(rng, ds))]
         elif f == 'IRR':
             n = rng.randint(2, 5) if small else rng.choice([3, 6, 12, 20, 30, rng.randint(2, 30)])
             if rng.random() < 0.85:
@@ -443,7 +444,7 @@ def driver(seed, count):
                 cs = [-cents(rng, 1, 100000)] + [cents(rng, 0, 60000) for _ in range(n - 1)]
                 if not in_domain_root(cs):
                     continue
-            args = [col([N(c) for c in cs]), col(dargs)]
+            args = [col([N(c) for c in cs]), (row if rng.random() < 0.1 and n <= 20 else col)(dargs)]
         path = ('formula', 'wrapped', 'direct', 'mix', 'formula', 'mix')[i % 6]
         if path == 'mix':
             path = rng.choice(MIXES + (SLN_MIXES if f == 'SLN' else ())) if f in SCALAR_FUNCS else rng.choice(['wrapped', 'direct'])
